@@ -230,6 +230,11 @@ func (m *Manager) Peer(ctx context.Context, datahash share.DataHash, height uint
 	// obtained from discovery
 	peerID, ok = m.nodes.tryGet()
 	if ok {
+		// peer could have been blacklisted after (or while) it was added to the nodes pool
+		if m.isBlacklistedPeer(peerID) {
+			m.nodes.remove(peerID)
+			return m.Peer(ctx, datahash, height)
+		}
 		return m.newPeer(ctx, datahash, peerID, sourceDiscoveredNodes, m.nodes.len(), 0)
 	}
 
@@ -242,6 +247,10 @@ func (m *Manager) Peer(ctx context.Context, datahash share.DataHash, height uint
 		}
 		return m.newPeer(ctx, datahash, peerID, sourceShrexSub, p.len(), time.Since(start))
 	case peerID = <-m.nodes.next(ctx):
+		if m.isBlacklistedPeer(peerID) {
+			m.nodes.remove(peerID)
+			return m.Peer(ctx, datahash, height)
+		}
 		return m.newPeer(ctx, datahash, peerID, sourceDiscoveredNodes, m.nodes.len(), time.Since(start))
 	case <-ctx.Done():
 		return "", nil, ctx.Err()
@@ -463,7 +472,11 @@ func (m *Manager) validatedPool(hashStr string, height uint64) *syncPool {
 	if p.isValidatedDataHash.CompareAndSwap(false, true) {
 		log.Debugw("pool marked validated", "datahash", hashStr)
 		// if pool is proven to be valid, add all collected peers to discovered nodes
-		m.nodes.add(p.peers()...)
+		for _, id := range p.peers() {
+			if !m.isBlacklistedPeer(id) {
+				m.nodes.add(id)
+			}
+		}
 	}
 	return p
 }
